@@ -182,6 +182,26 @@ CLAIMED = {
         technique="static analysis: writer/reader key-table agreement, must-pass-through, switch exhaustiveness and sibling agreement, "
         "expression-shape algebra",
     ),
+    "C07": dict(
+        text="Static analysis of OSMAPOSLReconstruction::update_estimate; thin structural part of C07 only. Decides: one subset number is "
+        "drawn per sub-iteration and used both for the gradient-plus-sensitivity and for the subset sensitivity it is divided by; the "
+        "update image is computed, divided, optionally limited and only then multiplied into the current image on every path; on the prior "
+        "branch the denominator loop computes exactly clamp(g/N + s, s/10, 10 s) (additive) resp. s*clamp(1+g, 1/10, 10) (multiplicative) "
+        "- the documented bounds, compared as piecewise-linear functions - and the division follows that loop. The EM update formula, "
+        "non-negativity, monotonicity, count preservation and restart equivalence are NOT decided.",
+        technique="static analysis: must-pass-through ordering with resolved operands, closed-form evaluation of a straight-line loop "
+        "body and exact piecewise-linear comparison",
+    ),
+    "C08": dict(
+        text="Static analysis of OSSPSReconstruction::update_estimate. Decides: every modification of the current image is followed on every "
+        "path by threshold_upper_lower over the whole image with lower bound 0 and upper bound `upper_bound` (iterates end in [0, upper "
+        "bound]); every division `_1 / _2` is by the image that passed threshold_min_to_small_positive_value in this call, or by the stored "
+        "denominator in the branch excluding the first executed sub-iteration, the stored one being copied from the thresholded image; the "
+        "additive update is subgradient*num_subsets/D*relaxation with relaxation = alpha/(1+gamma*(n div N)), added to the image "
+        "afterwards. NOT decided: that D equals the stated curvature, restart equality.",
+        technique="static analysis: must-pass-through / dominance on clang CFG, must-facts at divisions, expression-shape matching "
+        "of the update pipeline",
+    ),
 }
 
 NOT_APPLICABLE = {
